@@ -183,7 +183,7 @@ fn corpus_programs(tier: &str, with_comments: bool) -> (Vec<(String, String)>, V
     for p in nests {
         progs.push(("NEST".into(), p));
     }
-    let sqs = corpus::gen_sqlive(sd, if thorough { 300 } else { 40 });
+    let sqs = corpus::gen_sqlive(sd, if thorough { 400 } else { 120 });
     let sq_count = sqs.len();
     for p in sqs {
         progs.push(("SQLIVE".into(), p));
@@ -1230,4 +1230,8 @@ fn run_c15(tier: &str) -> i32 {
 
 pub fn corpus_for_dev() -> Vec<String> {
     corpus_programs("quick", false).0.into_iter().map(|(_, p)| p).collect()
+}
+
+pub fn corpus_tagged() -> Vec<(String, String)> {
+    corpus_programs("quick", false).0
 }
